@@ -21,7 +21,9 @@ GInit == Init /\ hist = <<>>
 GNext ==
     /\ ~Quiescent /\ Len(hist) < 60
     /\ \/ \E c \in Clients : \/ Connect(c) /\ Step([e |-> "connect", c |-> c])
-                             \/ Send(c) /\ Step([e |-> "send", c |-> c, bytes |-> Head(todo[c])])
+                             \/ Send(c) /\ Step([e |-> "send", c |-> c, bytes |-> Head(todo[c]),
+                                                   \* the descriptors the model chose to attach to this message
+                                                   fds |-> IF Len(S'.c2sfd[c]) > Len(S.c2sfd[c]) THEN S'.c2sfd[c][Len(S'.c2sfd[c])].fds ELSE <<>>])
                              \/ Recv(c) /\ Step([e |-> "recv", c |-> c])
                              \/ ShutWr(c) /\ Step([e |-> "shutwr", c |-> c])
                              \/ ShutRd(c) /\ Step([e |-> "shutrd", c |-> c])
